@@ -77,6 +77,7 @@ type frame struct {
 	env    map[ssa.Value]Val
 	depth  int
 	stack  []*ssa.Function
+	sites  []token.Pos // call-site positions of the inlining stack
 	active []*loopInfo
 	info   *fnInfo
 }
@@ -360,10 +361,11 @@ func mayAliasTypes(a, b types.Type) bool {
 func (ip *Interp) undecided(st *State, fr *frame, pos token.Pos, why string) {
 	var fn *ssa.Function
 	var stack []*ssa.Function
+	var sites []token.Pos
 	if fr != nil {
-		fn, stack = fr.fn, fr.stack
+		fn, stack, sites = fr.fn, fr.stack, fr.sites
 	}
-	st.addEffect(&Effect{Kind: EUndecided, Pos: pos, Fn: fn, Stack: stack, Note: why})
+	st.addEffect(&Effect{Kind: EUndecided, Pos: pos, Fn: fn, Stack: stack, Sites: sites, Note: why})
 }
 
 func (ip *Interp) load(p PtrV, st *State, fr *frame, pos token.Pos) Val {
@@ -379,12 +381,12 @@ func (ip *Interp) load(p PtrV, st *State, fr *frame, pos token.Pos) Val {
 		return UnknownV{Why: "unknown pointer", Typ: p.Typ}
 	}
 	// alias hazard: another parameter-reached object of a unifiable type had this path stored
+	hazard := ""
 	if p.Obj.Kind == OParam || p.Obj.Kind == OOpaque {
 		pk := pathString(p.Path)
 		for _, hs := range st.hdrStores {
 			if hs.obj != p.Obj && mayAliasTypes(hs.obj.Typ, p.Obj.Typ) && (strings.HasPrefix(pk, hs.path) || strings.HasPrefix(hs.path, pk)) {
-				st.addEffect(&Effect{Kind: EHazard, Pos: pos, Fn: fr.fn, Stack: fr.stack, Obj: p.Obj, Path: p.Path,
-					Note: fmt.Sprintf("load of %s%s after a store to %s%s, which may be the same object", p.Obj.Name, pk, hs.obj.Name, hs.path)})
+				hazard = fmt.Sprintf("%s%s is read after a store to %s%s, which may be the same object", p.Obj.Name, pk, hs.obj.Name, hs.path)
 				break
 			}
 		}
@@ -394,7 +396,22 @@ func (ip *Interp) load(p PtrV, st *State, fr *frame, pos token.Pos) Val {
 		ip.undecided(st, fr, pos, "load: bad path")
 		return UnknownV{Why: "bad path", Typ: p.Typ}
 	}
+	if hazard != "" {
+		if sv, ok := v.(SliceV); ok {
+			// the elements below the old length are unaffected; only a later
+			// use of len/cap is a hazard (recorded where it happens)
+			sv.Stale = hazard
+			return sv
+		}
+		st.addEffect(&Effect{Kind: EHazard, Pos: pos, Fn: fr.fn, Stack: fr.stack, Sites: fr.sites, Obj: p.Obj, Path: p.Path, Note: hazard})
+	}
 	return v
+}
+
+func (ip *Interp) staleUse(sv SliceV, what string, st *State, fr *frame, pos token.Pos) {
+	if sv.Stale != "" {
+		st.addEffect(&Effect{Kind: EHazard, Pos: pos, Fn: fr.fn, Stack: fr.stack, Sites: fr.sites, Note: what + " of a slice header that " + sv.Stale})
+	}
 }
 
 func (ip *Interp) loadElem(s *Storage, idx *Term, st *State, fr *frame, pos token.Pos) Val {
@@ -445,7 +462,7 @@ func (ip *Interp) store(p PtrV, v Val, st *State, fr *frame, pos token.Pos) {
 			ip.undecided(st, fr, pos, "non-constant store into a local array")
 			return
 		}
-		st.addEffect(&Effect{Kind: EStoreElem, Pos: pos, Fn: fr.fn, Stack: fr.stack, Stor: p.Stor, Idx: p.Idx, Val: v})
+		st.addEffect(&Effect{Kind: EStoreElem, Pos: pos, Fn: fr.fn, Stack: fr.stack, Sites: fr.sites, Stor: p.Stor, Idx: p.Idx, Val: v})
 		return
 	}
 	nv, ok := setPath(ip.content(p.Obj, st), p.Path, v)
@@ -455,7 +472,7 @@ func (ip *Interp) store(p PtrV, v Val, st *State, fr *frame, pos token.Pos) {
 	}
 	st.mem[p.Obj] = nv
 	if p.Obj.Kind != OFresh {
-		st.addEffect(&Effect{Kind: EStoreField, Pos: pos, Fn: fr.fn, Stack: fr.stack, Obj: p.Obj, Path: p.Path, Val: v})
+		st.addEffect(&Effect{Kind: EStoreField, Pos: pos, Fn: fr.fn, Stack: fr.stack, Sites: fr.sites, Obj: p.Obj, Path: p.Path, Val: v})
 		st.hdrStores = append(st.hdrStores, hdrStore{p.Obj, pathString(p.Path)})
 	} else if len(st.loops) > 0 {
 		// a store into a local object inside a summarised loop body would make
@@ -478,6 +495,8 @@ type Summary struct {
 // Run explores fn from a symbolic entry state.
 func (ip *Interp) Run(fn *ssa.Function) *Summary {
 	ip.npaths = 0
+	ip.entryObjs = map[string]*Object{}
+	ip.entryStor = map[string]*Storage{}
 	st := newState()
 	fr := &frame{fn: fn, env: map[ssa.Value]Val{}, info: ip.info(fn), stack: []*ssa.Function{fn}}
 	sum := &Summary{Fn: fn, Init: st}
@@ -618,6 +637,9 @@ func (ip *Interp) execIf(fr *frame, b *ssa.BasicBlock, x *ssa.If, st *State) []O
 		ip.undecided(st, fr, x.Pos(), "path budget exhausted")
 		return nil
 	}
+	if outs, ok := ip.ifConvert(fr, b, ct, st); ok {
+		return outs
+	}
 	st2 := st.clone()
 	fr2 := fr.fork()
 	st.facts.add(c)
@@ -625,6 +647,75 @@ func (ip *Interp) execIf(fr *frame, b *ssa.BasicBlock, x *ssa.If, st *State) []O
 	outs := ip.enter(fr, b, b.Succs[0], st)
 	outs = append(outs, ip.enter(fr2, b, b.Succs[1], st2)...)
 	return outs
+}
+
+// ifConvert handles the triangle/diamond whose arms are empty blocks that
+// only select values for the phis of the join (e.g. `if x > acc { acc = x }`):
+// the phis become if-then-else terms and the path is not forked.
+func (ip *Interp) ifConvert(fr *frame, b *ssa.BasicBlock, cond *Term, st *State) ([]Outcome, bool) {
+	emptyJump := func(x *ssa.BasicBlock) *ssa.BasicBlock {
+		if len(x.Instrs) == 1 && len(x.Preds) == 1 {
+			if _, ok := x.Instrs[0].(*ssa.Jump); ok {
+				return x.Succs[0]
+			}
+		}
+		return nil
+	}
+	s0, s1 := b.Succs[0], b.Succs[1]
+	var join, p0, p1 *ssa.BasicBlock
+	switch {
+	case emptyJump(s0) != nil && emptyJump(s0) == s1:
+		join, p0, p1 = s1, s0, b
+	case emptyJump(s1) != nil && emptyJump(s1) == s0:
+		join, p0, p1 = s0, b, s1
+	case emptyJump(s0) != nil && emptyJump(s0) == emptyJump(s1):
+		join, p0, p1 = emptyJump(s0), s0, s1
+	default:
+		return nil, false
+	}
+	if fr.info.loops[join] != nil || len(join.Preds) != 2 {
+		return nil, false
+	}
+	i0, i1 := -1, -1
+	for i, p := range join.Preds {
+		if p == p0 {
+			i0 = i
+		}
+		if p == p1 {
+			i1 = i
+		}
+	}
+	if i0 < 0 || i1 < 0 || i0 == i1 {
+		return nil, false
+	}
+	vals := map[*ssa.Phi]Val{}
+	n := 0
+	for _, in := range join.Instrs {
+		phi, ok := in.(*ssa.Phi)
+		if !ok {
+			break
+		}
+		n++
+		a, okA := ip.value(fr, phi.Edges[i0], st).(*Term)
+		c, okC := ip.value(fr, phi.Edges[i1], st).(*Term)
+		if !okA || !okC {
+			return nil, false
+		}
+		vals[phi] = mkIte(cond, a, c)
+	}
+	if n == 0 {
+		return nil, false
+	}
+	for phi, v := range vals {
+		fr.env[phi] = v
+	}
+	if len(fr.active) > 0 {
+		cur := fr.active[len(fr.active)-1]
+		if !cur.blocks[join] && !fr.info.panicOnly[join] {
+			return nil, false
+		}
+	}
+	return ip.execFrom(fr, join, n, p1, st), true
 }
 
 // enter transfers control from block b to successor s.
@@ -935,6 +1026,27 @@ func (ip *Interp) foldCarried(ctx *LoopCtx, lp *loopInfo, cr carried, backs []Ou
 		if nv.Key() == cr.atom.Key() {
 			continue
 		}
+		// next = max(acc, f) / min(acc, f) as a term (after if-conversion)
+		if cn := canon(nv); (cn.Op == OpMax || cn.Op == OpMin) && len(cn.Args) == 2 {
+			var g *Term
+			if cn.Args[0].Key() == cr.atom.Key() {
+				g = cn.Args[1]
+			} else if cn.Args[1].Key() == cr.atom.Key() {
+				g = cn.Args[0]
+			}
+			if g != nil && !g.contains(func(x *Term) bool { return x.Key() == cr.atom.Key() }) {
+				k := "max"
+				if cn.Op == OpMin {
+					k = "min"
+				}
+				if (kind != "" && kind != k) || (f != nil && f.Key() != g.Key()) {
+					okAll = false
+					break
+				}
+				kind, f = k, g
+				continue
+			}
+		}
 		if nv.contains(func(x *Term) bool { return x.Key() == cr.atom.Key() }) {
 			okAll = false
 			break
@@ -1040,7 +1152,7 @@ func (ip *Interp) step(fr *frame, in ssa.Instruction, st *State) {
 		}
 		fr.env[x] = PtrV{Obj: o, Typ: pt.Elem()}
 		if x.Heap {
-			st.addEffect(&Effect{Kind: EAlloc, Pos: x.Pos(), Fn: fr.fn, Stack: fr.stack, Obj: o, Note: "new " + typeKey(pt.Elem()) + " (" + x.Comment + ")", Heap: true, Typ: pt.Elem()})
+			st.addEffect(&Effect{Kind: EAlloc, Pos: x.Pos(), Fn: fr.fn, Stack: fr.stack, Sites: fr.sites, Obj: o, Note: "new " + typeKey(pt.Elem()) + " (" + x.Comment + ")", Heap: true, Typ: pt.Elem()})
 		}
 	case *ssa.BinOp:
 		a, b := ip.term(fr, x.X, st), ip.term(fr, x.Y, st)
@@ -1051,7 +1163,7 @@ func (ip *Interp) step(fr *frame, in ssa.Instruction, st *State) {
 			if isFloatLike(x.Type()) {
 				note = "float"
 			}
-			st.addEffect(&Effect{Kind: EDiv, Pos: x.Pos(), Fn: fr.fn, Stack: fr.stack, Idx: b, Val: r, Note: note + " " + x.Op.String(), Typ: x.Type()})
+			st.addEffect(&Effect{Kind: EDiv, Pos: x.Pos(), Fn: fr.fn, Stack: fr.stack, Sites: fr.sites, Idx: b, Val: r, Note: note + " " + x.Op.String(), Typ: x.Type()})
 		}
 		fr.env[x] = r
 	case *ssa.UnOp:
@@ -1092,7 +1204,7 @@ func (ip *Interp) step(fr *frame, in ssa.Instruction, st *State) {
 			if isConst {
 				note += " (constant)"
 			}
-			st.addEffect(&Effect{Kind: EAlloc, Pos: x.Pos(), Fn: fr.fn, Stack: fr.stack, Note: note, Val: v, Typ: x.X.Type()})
+			st.addEffect(&Effect{Kind: EAlloc, Pos: x.Pos(), Fn: fr.fn, Stack: fr.stack, Sites: fr.sites, Note: note, Val: v, Typ: x.X.Type()})
 		}
 	case *ssa.MakeClosure:
 		cv := ClosureV{Fn: x.Fn.(*ssa.Function)}
@@ -1101,7 +1213,7 @@ func (ip *Interp) step(fr *frame, in ssa.Instruction, st *State) {
 		}
 		fr.env[x] = cv
 		if len(x.Bindings) > 0 {
-			st.addEffect(&Effect{Kind: EAlloc, Pos: x.Pos(), Fn: fr.fn, Stack: fr.stack, Note: "closure with captured variables", Val: cv})
+			st.addEffect(&Effect{Kind: EAlloc, Pos: x.Pos(), Fn: fr.fn, Stack: fr.stack, Sites: fr.sites, Note: "closure with captured variables", Val: cv})
 		}
 	case *ssa.MakeSlice:
 		ln, cp := ip.term(fr, x.Len, st), ip.term(fr, x.Cap, st)
@@ -1110,7 +1222,7 @@ func (ip *Interp) step(fr *frame, in ssa.Instruction, st *State) {
 		s.Name = fmt.Sprintf("make#%d", s.ID)
 		sv := SliceV{Stor: s, Off: mkInt(0, intT), Len: ln, Cap: cp, Elem: el}
 		fr.env[x] = sv
-		st.addEffect(&Effect{Kind: EAlloc, Pos: x.Pos(), Fn: fr.fn, Stack: fr.stack, Stor: s, Note: "make " + typeKey(x.Type()), Dst: &sv, Heap: true, Typ: x.Type()})
+		st.addEffect(&Effect{Kind: EAlloc, Pos: x.Pos(), Fn: fr.fn, Stack: fr.stack, Sites: fr.sites, Stor: s, Note: "make " + typeKey(x.Type()), Dst: &sv, Heap: true, Typ: x.Type()})
 	case *ssa.Slice:
 		ip.sliceExpr(fr, x, st)
 	case *ssa.FieldAddr:
@@ -1208,7 +1320,7 @@ func (ip *Interp) convert(fr *frame, dst ssa.Value, src ssa.Value, st *State) {
 	fromF := isFloatLike(t.Typ) || isTypeParam(t.Typ)
 	toI := isIntLike(dst.Type()) || isTypeParam(dst.Type())
 	if fromF && toI && !(isIntLike(t.Typ)) {
-		st.addEffect(&Effect{Kind: EConvert, Pos: dst.Pos(), Fn: fr.fn, Stack: fr.stack, Val: r, Idx: t, Typ: dst.Type(), Note: typeKey(dst.Type()) + " <- " + typeKey(t.Typ)})
+		st.addEffect(&Effect{Kind: EConvert, Pos: dst.Pos(), Fn: fr.fn, Stack: fr.stack, Sites: fr.sites, Val: r, Idx: t, Typ: dst.Type(), Note: typeKey(dst.Type()) + " <- " + typeKey(t.Typ)})
 	}
 	fr.env[dst] = r
 }
@@ -1242,6 +1354,7 @@ func (ip *Interp) sliceExpr(fr *frame, x *ssa.Slice, st *State) {
 		fr.env[x] = UnknownV{Why: "slice", Typ: x.Type()}
 		return
 	}
+	ip.staleUse(sv, "slice expression", st, fr, x.Pos())
 	lo := mkInt(0, intT)
 	if x.Low != nil {
 		lo = ip.term(fr, x.Low, st)
@@ -1254,7 +1367,7 @@ func (ip *Interp) sliceExpr(fr *frame, x *ssa.Slice, st *State) {
 	if x.Max != nil {
 		mx = ip.term(fr, x.Max, st)
 	}
-	st.addEffect(&Effect{Kind: EIndex, Pos: x.Pos(), Fn: fr.fn, Stack: fr.stack, Stor: sv.Stor, Lo: lo, Hi: hi, Max: mx, N: sv.Cap, Note: "slice", Dst: &sv})
+	st.addEffect(&Effect{Kind: EIndex, Pos: x.Pos(), Fn: fr.fn, Stack: fr.stack, Sites: fr.sites, Stor: sv.Stor, Lo: lo, Hi: hi, Max: mx, N: sv.Cap, Note: "slice", Dst: &sv})
 	capEnd := sv.Cap
 	if mx != nil {
 		capEnd = mx
@@ -1276,11 +1389,15 @@ func (ip *Interp) indexAddr(fr *frame, x *ssa.IndexAddr, st *State) {
 	switch b := base.(type) {
 	case SliceV:
 		if b.Nil || b.Stor == nil {
-			st.addEffect(&Effect{Kind: EIndex, Pos: x.Pos(), Fn: fr.fn, Stack: fr.stack, Idx: idx, Hi: mkInt(0, intT), Note: "index"})
+			st.addEffect(&Effect{Kind: EIndex, Pos: x.Pos(), Fn: fr.fn, Stack: fr.stack, Sites: fr.sites, Idx: idx, Hi: mkInt(0, intT), Note: "index"})
 			fr.env[x] = PtrV{Typ: el}
 			return
 		}
-		st.addEffect(&Effect{Kind: EIndex, Pos: x.Pos(), Fn: fr.fn, Stack: fr.stack, Stor: b.Stor, Idx: idx, Hi: b.Len, Note: "index", Dst: &b})
+		note := "index"
+		if b.Stale != "" {
+			note = "index(stale header)"
+		}
+		st.addEffect(&Effect{Kind: EIndex, Pos: x.Pos(), Fn: fr.fn, Stack: fr.stack, Sites: fr.sites, Stor: b.Stor, Idx: idx, Hi: b.Len, Note: note, Dst: &b})
 		fr.env[x] = PtrV{Stor: b.Stor, Idx: mkBin(token.ADD, b.Off, idx, intT), Typ: el}
 	case PtrV:
 		if b.Obj != nil {
@@ -1448,7 +1565,8 @@ func (ip *Interp) call(fr *frame, in ssa.CallInstruction, st *State) []Outcome {
 		}
 	}
 	nf := &frame{fn: callee, env: map[ssa.Value]Val{}, depth: fr.depth + 1, info: ip.info(callee),
-		stack: append(append([]*ssa.Function{}, fr.stack...), callee)}
+		stack: append(append([]*ssa.Function{}, fr.stack...), callee),
+		sites: append(append([]token.Pos{}, fr.sites...), pos)}
 	for i, p := range callee.Params {
 		if i < len(args) {
 			nf.env[p] = args[i]
@@ -1645,7 +1763,7 @@ func (ip *Interp) external(fr *frame, callee *ssa.Function, args []Val, resT typ
 				upd, ok := setPath(ip.content(rv.Addr.Obj, st), rv.Addr.Path, nv)
 				if ok {
 					st.mem[rv.Addr.Obj] = upd
-					st.addEffect(&Effect{Kind: ESetCap, Pos: pos, Fn: fr.fn, Stack: fr.stack, Obj: rv.Addr.Obj, Path: rv.Addr.Path, N: n, Dst: &cur, Note: note})
+					st.addEffect(&Effect{Kind: ESetCap, Pos: pos, Fn: fr.fn, Stack: fr.stack, Sites: fr.sites, Obj: rv.Addr.Obj, Path: rv.Addr.Path, N: n, Dst: &cur, Note: note})
 					if rv.Addr.Obj.Kind != OFresh {
 						st.hdrStores = append(st.hdrStores, hdrStore{rv.Addr.Obj, pathString(rv.Addr.Path)})
 					}
@@ -1654,13 +1772,13 @@ func (ip *Interp) external(fr *frame, callee *ssa.Function, args []Val, resT typ
 			}
 		}
 	case "(*sync.Pool).Get":
-		st.addEffect(&Effect{Kind: ECall, Pos: pos, Fn: fr.fn, Stack: fr.stack, Callee: name, Args: args})
+		st.addEffect(&Effect{Kind: ECall, Pos: pos, Fn: fr.fn, Stack: fr.stack, Sites: fr.sites, Callee: name, Args: args})
 		return IfaceV{Dyn: OpaqueV{Name: fmt.Sprintf("pool.Get@%d", len(st.effects)), Typ: resT}}
 	case "(*sync.Pool).Put":
-		st.addEffect(&Effect{Kind: ECall, Pos: pos, Fn: fr.fn, Stack: fr.stack, Callee: name, Args: args})
+		st.addEffect(&Effect{Kind: ECall, Pos: pos, Fn: fr.fn, Stack: fr.stack, Sites: fr.sites, Callee: name, Args: args})
 		return nil
 	}
-	st.addEffect(&Effect{Kind: ECall, Pos: pos, Fn: fr.fn, Stack: fr.stack, Callee: name, Args: args, Note: "unknown external"})
+	st.addEffect(&Effect{Kind: ECall, Pos: pos, Fn: fr.fn, Stack: fr.stack, Sites: fr.sites, Callee: name, Args: args, Note: "unknown external"})
 	if resT == nil {
 		return nil
 	}
@@ -1675,6 +1793,7 @@ func (ip *Interp) builtin(fr *frame, b *ssa.Builtin, com *ssa.CallCommon, args [
 	case "len", "cap":
 		switch x := args[0].(type) {
 		case SliceV:
+			ip.staleUse(x, b.Name(), st, fr, pos)
 			if b.Name() == "len" {
 				return x.Len
 			}
@@ -1714,16 +1833,19 @@ func (ip *Interp) builtin(fr *frame, b *ssa.Builtin, com *ssa.CallCommon, args [
 		d, ok1 := args[0].(SliceV)
 		s, ok2 := args[1].(SliceV)
 		if ok1 && ok2 {
+			ip.staleUse(d, "copy", st, fr, pos)
+			ip.staleUse(s, "copy", st, fr, pos)
 			n := mkIte(mkCmp(token.LSS, d.Len, s.Len), d.Len, s.Len)
 			if !d.Nil && d.Stor != nil {
-				st.addEffect(&Effect{Kind: ECopy, Pos: pos, Fn: fr.fn, Stack: fr.stack, Stor: d.Stor, Dst: &d, Src: &s, N: n})
+				st.addEffect(&Effect{Kind: ECopy, Pos: pos, Fn: fr.fn, Stack: fr.stack, Sites: fr.sites, Stor: d.Stor, Dst: &d, Src: &s, N: n})
 			}
 			return n
 		}
 	case "clear":
 		if s, ok := args[0].(SliceV); ok {
+			ip.staleUse(s, "clear", st, fr, pos)
 			if !s.Nil && s.Stor != nil {
-				st.addEffect(&Effect{Kind: EClear, Pos: pos, Fn: fr.fn, Stack: fr.stack, Stor: s.Stor, Dst: &s, N: s.Len})
+				st.addEffect(&Effect{Kind: EClear, Pos: pos, Fn: fr.fn, Stack: fr.stack, Sites: fr.sites, Stor: s.Stor, Dst: &s, N: s.Len})
 			}
 			return nil
 		}
@@ -1735,7 +1857,7 @@ func (ip *Interp) builtin(fr *frame, b *ssa.Builtin, com *ssa.CallCommon, args [
 		}
 		return mkAtom("sizeof("+typeKey(com.Args[0].Type())+")", resT)
 	case "print", "println":
-		st.addEffect(&Effect{Kind: ECall, Pos: pos, Fn: fr.fn, Stack: fr.stack, Callee: b.Name(), Args: args})
+		st.addEffect(&Effect{Kind: ECall, Pos: pos, Fn: fr.fn, Stack: fr.stack, Sites: fr.sites, Callee: b.Name(), Args: args})
 		return nil
 	}
 	ip.undecided(st, fr, pos, "unsupported builtin "+b.Name())
@@ -1749,6 +1871,8 @@ func (ip *Interp) appendBuiltin(fr *frame, args []Val, resT types.Type, st *Stat
 		ip.undecided(st, fr, pos, "append of unsupported operands")
 		return UnknownV{Why: "append", Typ: resT}
 	}
+	ip.staleUse(s, "append", st, fr, pos)
+	ip.staleUse(t, "append", st, fr, pos)
 	n := t.Len
 	newLen := mkBin(token.ADD, s.Len, n, intT)
 	// fits: len+n <= cap
@@ -1767,11 +1891,11 @@ func (ip *Interp) appendBuiltin(fr *frame, args []Val, resT types.Type, st *Stat
 		if c, ok := normInt(n).IsConst(); ok && c.IsInt64() && c.Int64() <= 8 && t.Stor != nil && t.Stor.Kind == SArrayObj {
 			for i := int64(0); i < c.Int64(); i++ {
 				ev := ip.loadElem(t.Stor, mkBin(token.ADD, t.Off, mkInt(i, intT), intT), st, fr, pos)
-				st.addEffect(&Effect{Kind: EStoreElem, Pos: pos, Fn: fr.fn, Stack: fr.stack, Stor: s.Stor,
+				st.addEffect(&Effect{Kind: EStoreElem, Pos: pos, Fn: fr.fn, Stack: fr.stack, Sites: fr.sites, Stor: s.Stor,
 					Idx: mkBin(token.ADD, dst.Off, mkInt(i, intT), intT), Val: ev, Note: "append in place"})
 			}
 		} else {
-			st.addEffect(&Effect{Kind: ECopy, Pos: pos, Fn: fr.fn, Stack: fr.stack, Stor: s.Stor, Dst: &dst, Src: &t, N: n, Note: "append in place"})
+			st.addEffect(&Effect{Kind: ECopy, Pos: pos, Fn: fr.fn, Stack: fr.stack, Sites: fr.sites, Stor: s.Stor, Dst: &dst, Src: &t, N: n, Note: "append in place"})
 		}
 		return SliceV{Stor: s.Stor, Off: s.Off, Len: newLen, Cap: s.Cap, Elem: s.Elem}
 	}
@@ -1783,7 +1907,7 @@ func (ip *Interp) appendBuiltin(fr *frame, args []Val, resT types.Type, st *Stat
 	if verdict == Unknown {
 		note = "may grow"
 	}
-	st.addEffect(&Effect{Kind: EGrow, Pos: pos, Fn: fr.fn, Stack: fr.stack, Stor: g, Dst: &s, Src: &t, N: n, Note: note, Heap: true})
-	st.addEffect(&Effect{Kind: EAlloc, Pos: pos, Fn: fr.fn, Stack: fr.stack, Stor: g, Note: "append " + note, Heap: true})
+	st.addEffect(&Effect{Kind: EGrow, Pos: pos, Fn: fr.fn, Stack: fr.stack, Sites: fr.sites, Stor: g, Dst: &s, Src: &t, N: n, Note: note, Heap: true})
+	st.addEffect(&Effect{Kind: EAlloc, Pos: pos, Fn: fr.fn, Stack: fr.stack, Sites: fr.sites, Stor: g, Note: "append " + note, Heap: true})
 	return SliceV{Stor: g, Off: mkInt(0, intT), Len: newLen, Cap: ncap, Elem: s.Elem}
 }
